@@ -150,6 +150,117 @@ theorem C04_scoring_noninterference (s s' : Screen) (h : AgreeOffMask s s') (pid
   rw [h1, h1', h2, h2', h3, h3', h4, h4', h5, h5', h.shape]
   exact ⟨rfl, rfl, rfl, rfl, rfl⟩
 
+/-! ### data handed directly to `add_observations`; the whole chain (added by the audit) -/
+
+/-- Whatever rows are handed to `SparseDrugCombo.add_observations` (a subset, a whole screen): if it is accepted then every
+    row was observed, non-negative and not NaN, and the model recorded exactly one tuple per row, in row order. -/
+theorem C04_accepts_only_observed_combo {τ : Type} (transform : Nat → τ) (nanT : τ → Bool) (arity : Nat) (rows : List Row)
+    (t : Trained τ) (h : addObservations .sparseDrugCombo transform nanT arity rows = .ok t) :
+    (∀ r ∈ rows, r.mask = true ∧ geZero r.obs = true ∧ nanT (transform r.obs) = false)
+    ∧ t.tuples = rows.map (fun r => (transform r.obs, r.sid, r.tids.getD 0 0, r.tids.getD 1 0)) ∧ t.single = [] := by
+  unfold addObservations at h
+  split at h
+  · cases h
+  next hm =>
+  have hm' : rows.all (·.mask) = true := by simpa using hm
+  simp only [addSparseDrugCombo] at h
+  split at h
+  · cases h
+  next hg =>
+  split at h
+  · cases h
+  next hn =>
+  obtain ⟨ts, hts, h⟩ := bind_ok h
+  have := pure_ok h
+  subst this
+  have hf : rows.filter (·.mask) = rows := by
+    rw [List.filter_eq_self]; exact List.all_eq_true.mp hm'
+  rw [hf] at hts
+  refine ⟨?_, mapM_firstTwo (fun r => transform r.obs) _ _ hts, rfl⟩
+  intro r hr
+  refine ⟨List.all_eq_true.mp hm' r hr, ?_, ?_⟩
+  · have : rows.all (fun r => geZero r.obs) = true := by simpa using hg
+    exact List.all_eq_true.mp this r hr
+  · have : (rows.map (fun r => transform r.obs)).any nanT = false := by simpa using hn
+    rw [List.any_eq_false] at this
+    have := this (transform r.obs) (List.mem_map_of_mem hr)
+    simpa using this
+
+/-- the same for `SparseDrugComboInteraction`: accepted input is two-treatment, fully observed, non-negative, not NaN;
+    one tuple per combination row (no control), single-effect table from exactly the rows given -/
+theorem C04_accepts_only_observed_interaction {τ : Type} (transform : Nat → τ) (nanT : τ → Bool) (arity : Nat) (rows : List Row)
+    (t : Trained τ) (h : addObservations .sparseDrugComboInteraction transform nanT arity rows = .ok t) :
+    arity = 2 ∧ (∀ r ∈ rows, r.mask = true ∧ geZero r.obs = true)
+    ∧ t.tuples = (rows.filter (fun r => countControl r.tids == 0)).map
+        (fun r => (transform r.obs, r.sid, r.tids.getD 0 0, r.tids.getD 1 0))
+    ∧ t.single = singleEffectMap rows 2 := by
+  unfold addObservations at h
+  split at h
+  · cases h
+  next hm =>
+  have hm' : rows.all (·.mask) = true := by simpa using hm
+  simp only [addInteraction] at h
+  split at h
+  · cases h
+  next ha =>
+  have ha' : arity = 2 := by simpa using ha
+  subst ha'
+  split at h
+  · cases h
+  next hg =>
+  obtain ⟨ts, hts, h⟩ := bind_ok h
+  have := pure_ok h
+  subst this
+  have hf : (rows.filter (fun r => countControl r.tids == 0)).filter (·.mask) = rows.filter (fun r => countControl r.tids == 0) := by
+    rw [List.filter_eq_self]
+    intro r hr
+    exact List.all_eq_true.mp hm' r (List.mem_filter.mp hr).1
+  rw [hf] at hts
+  refine ⟨rfl, ?_, mapM_firstTwo (fun r => transform r.obs) _ _ hts, rfl⟩
+  intro r hr
+  refine ⟨List.all_eq_true.mp hm' r hr, ?_⟩
+  have : rows.all (fun r => geZero r.obs) = true := by simpa using hg
+  exact List.all_eq_true.mp this r hr
+
+/-- The whole chain on the model, with the numerical stages abstract: the posterior sampler is *any* function of the
+    recorded training data (and of whatever else does not depend on the screen: seed, hyper-parameters), predictions /
+    the distance matrix *any* function of the samples and of the screen without its observation column, the scorer *any*
+    function of samples and distances.  Then samples, distance matrix, the holder of every chunk and the selected plate
+    coincide for two screens that differ only behind the mask.  (That the real sampler, predictor and scorers have
+    these signatures, i.e. never read `Screen.observations`, is what the differential runs of `harness/c04.py` test.) -/
+theorem C04_pipeline_noninterference {τ Θ D : Type} (m : ModelKind) (transform : Nat → τ) (nanT : τ → Bool)
+    (sampler : Except Err (Trained τ) → Θ) (distance : Θ → ScreenShape → D) (scorer : Θ → D → Scorer)
+    (s s' : Screen) (h : AgreeOffMask s s') (pid : Nat) (batch : List Int) (n idx : Nat) (policy : Option Policy) (files : List Holder) :
+    let θ := sampler (trainRows m transform nanT s)
+    let θ' := sampler (trainRows m transform nanT s')
+    let d := distance θ (shape s)
+    let d' := distance θ' (shape s')
+    θ = θ' ∧ d = d'
+    ∧ scoreChunk s pid batch n idx (scorer θ d) = scoreChunk s' pid batch n idx (scorer θ' d')
+    ∧ (Holder.concat files >>= fun H => selectNextPlate H s policy batch)
+        = (Holder.concat files >>= fun H => selectNextPlate H s' policy batch) := by
+  intro θ θ' d d'
+  have hθ : θ = θ' := by
+    simp only [θ, θ']
+    rw [trainRows_eq, trainRows_eq, observedRows_agree s s' h, mask_eq h.shape, arity_eq h.shape]
+  have hd : d = d' := by simp only [d, d', hθ, h.shape]
+  have h3 : ∀ sc, scoreChunk s pid batch n idx sc = shScoreChunk (shape s) pid batch n idx sc := fun _ => rfl
+  have h3' : ∀ sc, scoreChunk s' pid batch n idx sc = shScoreChunk (shape s') pid batch n idx sc := fun _ => rfl
+  have h5 : ∀ H, selectNextPlate H s policy batch = shSelectNextPlate H (shape s) policy batch := fun _ => rfl
+  have h5' : ∀ H, selectNextPlate H s' policy batch = shSelectNextPlate H (shape s') policy batch := fun _ => rfl
+  refine ⟨hθ, hd, ?_, ?_⟩
+  · rw [h3, h3', hθ, hd, h.shape]
+  · simp only [h5, h5', h.shape]
+
+/-- **Every** selection vector handed directly to `add_observations` — observed rows only, observed and masked rows
+    mixed, masked rows only, nothing: the outcome (the same refusal, or the same recorded training data) is identical for
+    two screens that differ only behind the mask, for both models. -/
+theorem C04_add_view_noninterference {τ : Type} (m : ModelKind) (transform : Nat → τ) (nanT : τ → Bool)
+    (s s' : Screen) (h : AgreeOffMask s s') (sel : List Bool) :
+    addObservations m transform nanT s.arity (viewRows s { parent := 0, sel := sel })
+      = addObservations m transform nanT s'.arity (viewRows s' { parent := 0, sel := sel }) :=
+  addObservations_view_agree m transform nanT s s' h sel
+
 /-! ### non-vacuity and concrete bit patterns -/
 
 /-- two plates: rows 0-2 observed (one single-agent row, two combinations), rows 3-4 masked -/
